@@ -95,13 +95,17 @@ def enumerate_ops(m, mi):
             if is_mapping(cur):
                 for i in sorted({0, ln - 1}):
                     if 0 <= i < ln: ops += [(mi, n, 'setkey', i), (mi, n, 'delkey', i), (mi, n, 'popkey', i)]
-                ops += [(mi, n, 'setkey-new', 0), (mi, n, 'delkey-missing', 0)]
+                ops += [(mi, n, 'setkey-new', 0), (mi, n, 'delkey-missing', 0), (mi, n, 'pop-default-missing', 0), (mi, n, 'setdefault-new', 0), (mi, n, 'update-two', 0),
+                        (mi, n, 'map-read', 0)]
+                if ln: ops += [(mi, n, 'setdefault-existing', 0), (mi, n, 'popitem', 0), (mi, n, 'pop-default-existing', ln - 1), (mi, n, 'map-clear', 0), (mi, n, 'pop-int', 0), (mi, n, 'del-int', ln - 1)]
                 continue
             if n.endswith('_with_comments'): ops += [(mi, n, 'ins-comment', 0), (mi, n, 'ins-comment', ln), (mi, n, 'unclaim-foreign', 0), (mi, n, 'claim-foreign', 0)]
             for i in sorted({0, 1, ln - 1, ln, -1}):
                 if -ln <= i <= ln: ops.append((mi, n, 'ins', i))
                 if -ln <= i < ln:
                     ops += [(mi, n, 'pop', i), (mi, n, 'setitem', i)]
+            if ln: ops += [(mi, n, 'remove', 0), (mi, n, 'remove', ln - 1), (mi, n, 'reverse', 0), (mi, n, 'list-read', 0), (mi, n, 'remove-missing', 0)]
+            ops += [(mi, n, 'iadd2', 0), (mi, n, 'extend0', 0)]
             ops += [(mi, n, 'append', 0), (mi, n, 'extend2', 0), (mi, n, 'clear', 0), (mi, n, 'del-slice', (0, 2)), (mi, n, 'ins2-front', 0),
                     (mi, n, 'slice-set', (0, 1)), (mi, n, 'slice-set', (1, 1)), (mi, n, 'pop', ln), (mi, n, 'setitem', ln), (mi, n, 'ins-attached', 0)]
             if ln >= 2: ops += [(mi, n, 'step-set', (None, None, 2)), (mi, n, 'step-set', (None, None, -1)), (mi, n, 'step-set', (ln - 1, 0, -2)), (mi, n, 'step-set', (1, None, 2)),
@@ -173,6 +177,47 @@ def apply_op(f, op):
         dv = pick_donor_item(m, n, j)
         if dv is None: raise Refused('no donor item')
         return dv
+    if action in ('pop-default-missing', 'setdefault-new', 'setdefault-existing', 'update-two', 'popitem', 'pop-default-existing', 'map-clear', 'map-read', 'pop-int', 'del-int'):
+        keys = list(view.keys()); sentinel = object()
+        if action == 'pop-default-missing':
+            r = view.pop('zzmissing', sentinel)
+            if r is not sentinel: raise AssertionError('C10: pop(missing key, default) did not return the default')
+            return m, ('key', n, 'zzmissing')
+        if action == 'pop-default-existing':
+            key = keys[arg]; want = view[key]; r = view.pop(key, sentinel)
+            if r is sentinel: raise AssertionError('C10: pop(existing key, default) returned the default')
+            check_handed_out(r, f'{n}.pop({key!r}, default)')
+            if key in view and keys.count(key) == 1: raise AssertionError('C10: pop(key) left the key in the mapping')
+            return m, ('key', n, key)
+        if action == 'setdefault-new':
+            v = mapping_value(view, m, n); r = view.setdefault('zznew', v)
+            if 'zznew' not in view: raise AssertionError('C10: setdefault(new key) did not add the key')
+            return m, ('list', n)
+        if action == 'setdefault-existing':
+            key = keys[arg]; before = view[key]; r = view.setdefault(key, mapping_value(view, m, n, key))
+            if view[key] != before: raise AssertionError('C10: setdefault(existing key) changed the value')
+            return m, ('list', n, 0)
+        if action == 'update-two':
+            view.update({'zzone': mapping_value(view, m, n, 'zzone'), 'zztwo': mapping_value(view, m, n, 'zztwo')})
+            if list(view.keys())[-2:] != ['zzone', 'zztwo']: raise AssertionError(f'C10: update() did not append the two new keys in order: {list(view.keys())}')
+            return m, ('list', n)
+        if action == 'popitem':
+            k_, v_ = view.popitem(); check_handed_out(v_, f'{n}.popitem()')
+            return m, ('key', n, k_)
+        if action == 'map-clear': view.clear(); return m, ('list', n)
+        if action == 'pop-int': check_handed_out(view.pop(0), f'{n}.pop(0)'); return m, ('list', n)
+        if action == 'del-int': del view[arg]; return m, ('list', n)
+        if action == 'map-read':
+            # first-match / ordered-dict reading: keys, values, items, get, in, len, reversed agree with the item list
+            items = list(view.items())
+            if [k_ for k_, _ in items] != keys or len(view) != len(keys): raise AssertionError('C10: items()/keys()/len() disagree')
+            if list(reversed(view.keys())) != keys[::-1]: raise AssertionError('C10: reversed(keys()) is not keys() reversed')
+            vals = list(view.values())
+            for k_ in set(keys):
+                first = next(v_ for kk, v_ in items if kk == k_)
+                if view[k_] != first or view.get(k_) != first or k_ not in view: raise AssertionError(f'C10: mapping[{k_!r}] is not the first item with that key')
+            if 'zzmissing' in view or view.get('zzmissing', 7) != 7: raise AssertionError('C10: a missing key is reported present')
+            raise Refused('read only')
     if action in ('setkey', 'delkey', 'popkey', 'setkey-new', 'delkey-missing'):
         keys = list(view.keys())
         if action == 'setkey-new':
@@ -211,6 +256,36 @@ def apply_op(f, op):
     if action == 'ins': view.insert(arg, item()); return m, ('list', n)
     if action == 'pop': check_handed_out(view.pop(arg), f'{n}.pop({arg})'); return m, ('list', n)
     if action == 'setitem': view[arg] = item(); return m, ('list', n)
+    if action == 'remove':
+        x = view[arg]; before = list(view)
+        first = next(i_ for i_, y in enumerate(before) if y is x or y == x)       # list.remove takes out the first element equal to x
+        view.remove(x)
+        want = [id(y) for i_, y in enumerate(before) if i_ != first]
+        if isinstance(x, base.RawModel) and [id(y) for y in view] != want: raise AssertionError('C10: remove(x) did not remove exactly the first occurrence')      # (a removed node is dead: compare by identity)
+        if not isinstance(x, base.RawModel) and list(view) != [y for i_, y in enumerate(before) if i_ != first]: raise AssertionError('C10: remove(x) did not remove exactly the first occurrence')
+        return m, ('list', n)
+    if action == 'remove-missing':
+        dv = item()
+        if dv in list(view): raise Refused('donor value present')
+        view.remove(dv); raise AssertionError('C19: remove() of a value that is not in the list was accepted')
+    if action == 'reverse':
+        before = [x for x in view]; view.reverse()
+        return m, ('list', n, max(len(before), 1))
+    if action == 'iadd2':
+        view += [item(1), item(2)]; return m, ('list', n)
+    if action == 'extend0': view.extend([]); return m, ('list', n, 0)
+    if action == 'list-read':
+        lst = list(view); ln_ = len(lst)
+        if len(view) != ln_ or [view[i] for i in range(ln_)] != lst or [view[i] for i in range(-ln_, 0)] != lst: raise AssertionError('C10: iteration, len and indexing disagree')
+        if view[0:ln_] != lst or view[::-1] != lst[::-1] or view[1:] != lst[1:] or view[:-1] != lst[:-1] or view[::2] != lst[::2]: raise AssertionError('C10: slicing disagrees with list slicing')
+        if list(reversed(view)) != lst[::-1]: raise AssertionError('C10: reversed() disagrees')
+        for i_, x in enumerate(lst):
+            if x not in view: raise AssertionError('C10: an element is not `in` its view')
+            if view.index(x) != lst.index(x) or view.count(x) != lst.count(x): raise AssertionError('C10: index()/count() disagree with the list')
+        for bad in (ln_, -ln_ - 1):
+            try: view[bad]; raise AssertionError(f'C10: view[{bad}] did not raise IndexError')
+            except IndexError: pass
+        raise Refused('read only')
     if action == 'append': view.append(item()); return m, ('list', n)
     if action == 'extend2': view.extend([item(1), item(2)]); return m, ('list', n)
     if action == 'clear': view.clear(); return m, ('list', n)
@@ -400,7 +475,7 @@ def run_case(prop, docname, ops):
         except Refused:
             return None, 'skip'
         except AssertionError as e:
-            if prop == 'C19' or (prop == 'C05' and str(e).startswith('C05')): return f'step {step} {op}: {e}', 'fail'
+            if prop == 'C19' or (prop == 'C05' and str(e).startswith('C05')) or (prop == 'C10' and str(e).startswith('C10')): return f'step {step} {op}: {e}', 'fail'
             return None, 'skip'
         except Exception as e:
             # a refused operation must leave the document exactly as it was (C19)
@@ -448,12 +523,14 @@ def run(prop, tier, seed):
     if tier == 'quick' and len(cases) > 4500:
         # rare shapes (refusals with the document's own root, foreign comment batches, extended slices, paragraph comments) get their own sample,
         # so that they are never crowded out by the bulk of ordinary operations
-        RARE = ('unclaim-foreign', 'claim-foreign', 'set-root', 'root-ins', 'root-append', 'root-extend', 'root-setitem', 'root-slice', 'step-set', 'step-del', 'step-set-badlen', 'val-paragraphs')
+        RARE = ('unclaim-foreign', 'claim-foreign', 'set-root', 'root-ins', 'root-append', 'root-extend', 'root-setitem', 'root-slice', 'step-set', 'step-del', 'step-set-badlen', 'val-paragraphs',
+                'pop-default-missing', 'setdefault-new', 'setdefault-existing', 'update-two', 'popitem', 'pop-default-existing', 'map-clear', 'map-read', 'pop-int', 'del-int',
+                'remove', 'remove-missing', 'reverse', 'iadd2', 'extend0', 'list-read')
         rare = [c for c in cases if c[1][2] in RARE]; rest = [c for c in cases if c[1][2] not in RARE]
         rnd.shuffle(rare); rnd.shuffle(rest)
         by_action = {}
         for c in rare: by_action.setdefault(c[1][2], []).append(c)
-        picked = [c for a_ in sorted(by_action) for c in by_action[a_][:150]]
+        picked = [c for a_ in sorted(by_action) for c in by_action[a_][:90]]
         cases = picked + rest[:4500]
     for name, op in cases:
         if not rep.mine((name, op)): continue
